@@ -22,7 +22,10 @@ Inductive case :=
            (sent : list string) (mv : option Z)        (* instance-type requirement of the emitted NodeClaim *)
 | CaseSolve (pools : list (pool * bool))               (* every NodePool in the API with "ready, dynamic, not deleting" *)
             (levels : list (list (string * outcome)))  (* per relaxation level: outcome of each pool's template alone *)
-            (obs : list (Z * sobs)).                    (* per worker count: what Solve did with the pod *)
+            (obs : list (Z * sobs))                     (* per worker count: what Solve did with the pod *)
+(* the same observation judged by the strict reading of the property text (a separate case so that the known
+   finding attached to it can never hide a failure of the checks above) *)
+| CaseStrict (pools : list (pool * bool)) (levels : list (list (string * outcome))) (obs : list (Z * sobs)).
 
 Definition tag (b : bool) (t : string) : list string := if b then [] else [t].
 
@@ -146,7 +149,10 @@ Definition check_case (c : case) : list string :=
                 | SDeferred => deferred_ok_b table
                 | SFailed => failed_ok_b table
                 end) obs) "oracle:weight-priority"
-      ++ tag (forallb (fun o : Z * sobs =>
+  | CaseStrict pools levels obs =>
+      let eligible := map fst (filter snd pools) in
+      let table := map (fun lv => map (fun p => (p, outcome_of lv p)) eligible) levels in
+      tag (forallb (fun o : Z * sobs =>
                 match snd o with
                 | SPlaced p => placed_strict_b table p
                 | _ => true
